@@ -21,6 +21,8 @@ def expand(spec, alg):
         return spaces.G(c, alg.d)
     if kind == 'B':        # single blades and the empty tuple
         return [()] + [(k,) for k in c]
+    if kind == 'B12':      # the first six and the last six single blades (large algebras)
+        return [(k,) for k in list(c[1:7]) + list(c[-6:])]
     if kind == 'full':     # dense in canonical, binary and reversed order
         return [tuple(c), tuple(sorted(c)), tuple(reversed(c))]
     if kind == 'list':
